@@ -105,7 +105,7 @@ class NameEval:
         raise ValueError('unknown atom ' + tok)
 
 
-def oracle(case, est=None):
+def _oracle_names(case, est=None):
     """evaluate every plaintext output name on the input data (per episode, delays looking back in time) and
     compare with the lifted column it labels"""
     if multiplicative_depth(case['spec']) > 1 or not (pipes.kinds_in(case['spec']) <= set(ORACLE_KINDS) | {'pipe', 'split'}):
@@ -261,6 +261,43 @@ def given_names(rng, n):
     return rng.sample(pool, n)
 
 
+def oracle(case, est=None):
+    """the name-evaluating oracle under the default configuration and - the documented way to speed up prediction - with
+    `skip_validation=True` (a fresh fit inside the context): names must describe the columns on both routes"""
+    why = _oracle_names(case, est)
+    if why:
+        return why
+    with pykoop.config_context(skip_validation=True):
+        why = _oracle_names(case, None)
+    if why:
+        return why + ' (with skip_validation=True)'
+    return None
+
+
+def systematic_cases(rng):
+    """a small systematic family evaluated on every run (both configuration routes): polynomial orders x widths x
+    interaction_only, bilinear, delays before / after a polynomial stage, a split"""
+    specs = []
+    for order in (1, 2, 3):
+        for io in (False, True):
+            specs.append({'k': 'poly', 'order': order, 'io': io})
+    specs += [{'k': 'bilinear'}, {'k': 'const'}, {'k': 'delay', 'dx': 1, 'du': 2},
+              {'k': 'pipe', 'ss': [{'k': 'delay', 'dx': 1, 'du': 1}, {'k': 'poly', 'order': 2, 'io': False}]},
+              {'k': 'pipe', 'ss': [{'k': 'poly', 'order': 2, 'io': False}, {'k': 'delay', 'dx': 1, 'du': 0}]},
+              {'k': 'split', 'a': [{'k': 'poly', 'order': 2, 'io': False}], 'b': [{'k': 'delay', 'dx': 0, 'du': 1}]}]
+    for sp in specs:
+        for nx, nu in ((2, 1), (1, 2), (2, 2), (1, 1), (2, 0)):
+            if nu == 0 and sp['k'] in ('bilinear', 'split'):
+                continue
+            if multiplicative_depth(sp) > 1:
+                continue
+            ep = rng.random() < 0.5
+            m = pipes.loss(sp) + 2
+            labels = [0, 3] if ep else [0]
+            rows = [([l] if ep else []) + [round(rng.uniform(-2, 2), 3) for _ in range(nx + nu)] for l in labels for _ in range(m + 1)]
+            yield {'spec': sp, 'nx': nx, 'nu': nu, 'ep': ep, 'rows': rows, 'min_len': m, 'form': 'c', 'degenerate': False}
+
+
 def population_search(ctx):
     """failing-input search over a fresh population (also used when an exception raised inside the implementation
     ended the correspondence run early)"""
@@ -336,6 +373,12 @@ def run(ctx):
                 ctx.fail(why, c, {'kinds': sorted(pipes.kinds_in(c['spec']))})
             elif multiplicative_depth(c['spec']) <= 1 and pipes.kinds_in(c['spec']) <= set(ORACLE_KINDS) | {'pipe', 'split'}:
                 ctx.count('oracle_evaluated')
+    for c in systematic_cases(ctx.rng):
+        ctx.count('systematic family')
+        why = oracle(c)
+        if why:
+            ctx.fail(why, c, {'kinds': sorted(pipes.kinds_in(c['spec']))})
+            break
     replies = drv.ask(lines)
     bad = []
     for (c, fmt, sym, call, names, classes, use_df), rep in zip(meta, replies):
